@@ -67,10 +67,14 @@ class H(W.Hooks):
 
     def reset(self, run):
         self.prefix = []        # a new episode: only the subscribed recorder's record counts
+        # what was recorded in the abandoned episode stays what it was (checked at the end)
+        self.kept = getattr(self, "kept", []) + [getattr(self, "current_records", [])]
+        self.current_records = []
 
     def start(self, run):
         from job_shop_lib.dispatching import HistoryObserver
         self.prefix = []
+        self.kept, self.current_records = [], []
         if self.case.get("seed", 0) % 7 == 2:
             # two user observers in front of the history observer; the second one unsubscribes the
             # first from inside one of its updates - the recorder behind them misses nothing
@@ -110,6 +114,9 @@ class H(W.Hooks):
 
     def after(self, run, o, m):
         ctx, d, r = self.ctx, run.d, run.r
+        # the records the caller keeps from this episode (the objects handed to the observers)
+        self.current_records = [(so, so.operation.operation_id, so.start_time, so.machine_id)
+                                for so in self.recorded()]
         if self.case.get("seed", 0) % 7 == 4 and not self.case.get("raiser") and not self.prefix \
                 and len(r.history) == 1 + self.case["seed"] % 4 \
                 and self.hist_obs in d.subscribers:
@@ -151,6 +158,15 @@ class H(W.Hooks):
     def end(self, run):
         from job_shop_lib.dispatching import Dispatcher
         ctx, r = self.ctx, run.r
+        for ep, recs in enumerate(getattr(self, "kept", [])):
+            ctx.count("records_of_earlier_episodes_read_again", len(recs))
+            changed = [(oid, st, mid, so.operation.operation_id, so.start_time, so.machine_id)
+                       for so, oid, st, mid in recs
+                       if (so.operation.operation_id, so.start_time, so.machine_id) != (oid, st, mid)]
+            if changed:
+                ctx.violation("c02_records_of_an_earlier_episode_changed_later",
+                              {"episode": ep + 1, "then_and_now": changed[:5]})
+                break
         original = schedule_triples(run.d.schedule)
         if original != r.triples():
             ctx.violation("c02_schedule_differs_from_reference",
